@@ -417,6 +417,14 @@ def check(run, prefix="O19"):
         C10.ob_sanitise_tx(run, P + ".6")
 
     # ------------------------------------------------------------------ O19.5
+    ob = run.ob(P + ".10", "the UDP receive buffer holds a whole datagram of the size the send side admits (RECEIVE_BUFFER_SIZE >= MTU_BYTES)",
+                "the senders admit messages up to MTU_BYTES; a shorter receive buffer lets the kernel truncate an honest message (it then fails the exact decoder and is "
+                "dropped) and cuts trailing bytes off a padded one (which is then accepted)", floor=1)
+    rbs = prog.const_int(NET + "udp::RECEIVE_BUFFER_SIZE")
+    if rbs is None or consts.get("MTU_BYTES") is None:
+        ob.missing("const network::udp::RECEIVE_BUFFER_SIZE / network::MTU_BYTES")
+    else:
+        ob.check(rbs >= consts["MTU_BYTES"], "RECEIVE_BUFFER_SIZE|covers-mtu", "RECEIVE_BUFFER_SIZE (%d) >= MTU_BYTES (%d)" % (rbs, consts["MTU_BYTES"]), "", {"value": rbs})
     o = run.ob(P + ".5", "worst-case encoded size of every wire root <= MTU_BYTES",
                "a message above the MTU trips the send-side assertion (panic) or is truncated/dropped by the network", floor=5)
     for r in ROOTS:
